@@ -77,7 +77,9 @@ Definition sibling_base (root : tree) (p : loc) : option (loc * nat * nat) :=
   match get root p with
   | None => None
   | Some self =>
-      let pp := match parent_loc p with Some q => q | None => p end in
+      match parent_loc p with
+      | None => None                      (* a node without parent has no sibling *)
+      | Some pp =>
       match get root pp with
       | None => None
       | Some par =>
@@ -85,6 +87,7 @@ Definition sibling_base (root : tree) (p : loc) : option (loc * nat * nat) :=
           | Some i => Some (pp, i, length (children par))
           | None => None
           end
+      end
       end
   end.
 
